@@ -947,9 +947,7 @@ Proof.
           exists [LC; LSel SClosed; LC]. eexists. split; [|split; [repeat (apply Forall_cons; [auto|]); apply Forall_nil|]].
           - rewrite run_cons, Hs1, run_cons, Hs2. cbn. rewrite Hq1, El. reflexivity.
           - cbn. split; [solve [assumption|reflexivity]|]. split; eauto. }
-        destruct (IH (mkL (l_q s1) (l_pp s1) CTry (l_cancelled s1) (l_hist s1)) q' r)
-          as (sch & s' & Hrun & Hall & Hq & Hout); cbn; auto.
-        { rewrite Hq1. exact Hin. }
-        exists (LC :: LSel SClosed :: LC :: sch), s'. split; [|split; [repeat (apply Forall_cons; [auto|]); assumption|auto]].
-        rewrite run_cons, Hs1, run_cons, Hs2, run_cons. cbn [lstep l_cp l_q]. rewrite Hq1, El. exact Hrun.
+        (* queue not empty although next() just found it empty: cannot happen
+           sequentially; the model's retry is a run from [s] itself *)
+        exact (IH s q' r Hcp Hca Hin).
 Qed.
